@@ -49,6 +49,10 @@ def assert_tree():
     import gtirb_rewriting
 
     p = os.path.realpath(gtirb_rewriting.__file__)
+    allow = os.environ.get("VERIF_ALLOW_TREE")  # only for mutant experiments on scratch copies
+    if allow and p.startswith(os.path.realpath(allow)):
+        print("NOTE: running against scratch tree %s (not evidence)" % allow)
+        return
     if not p.startswith("/repo/src/"):
         print("HARNESS-ERROR: gtirb_rewriting imported from %s, not /repo/src" % p)
         sys.exit(2)
